@@ -429,7 +429,12 @@ func (g *fsmGen) cmd(depth int) gCmd {
 		c = gCmd{Kind: regattapb.Command_DUMMY}
 	case w < 10:
 		c = gCmd{Kind: regattapb.Command_PUT_BATCH}
-		for i := g.r.Intn(4); i > 0; i-- {
+		n := g.r.Intn(4)
+		if g.r.Intn(4) == 0 {
+			n = 13 + g.r.Intn(20) // a long batch naming keys more than once: the LAST pair of a key wins
+			g.hist.Inc("long put batch with repeated keys")
+		}
+		for i := n; i > 0; i-- {
 			c.KVs = append(c.KVs, [2][]byte{g.key(), g.val()})
 		}
 	case w < 11:
